@@ -62,10 +62,12 @@ SPEC = dict(
                     exhaustive_programs=1280000, exhaustive_programs_all_arities=1152000, op_emit_recursive_same_signal=200000, op_destroy_emitter_while_emitting=100000, op_destroy_emitter_with_nested_emissions=20000,
                     op_destroy_listener_with_pending_slots=60000, op_disconnect_behind_dead_record_of_same_slot=100000, op_destroy_listener_behind_other_record_of_same_slot=60000,
                     dcd_sequences_signal_emitting=50000, pending_slot_dropped_before_its_turn=150000, passed_over_connected_during_emission=400000, max_emission_depth=4,
-                    **{'set:action_at_depth': 80}),
+                    **{'set:action_at_depth': 80},
+                    **_arity_floors(emit=350000, connect=400000, disconnect=170000, invoked=450000, conn_emitting=70000, disc_emitting=65000, passed_over=70000, dropped=45000, ended=30000, recursive=40000)),
             T: dict(slot_invocations=45000000, invocations_matched=45000000, nested_actions=40000000, quiescent_walks=120000000, records_compared_by_walks=450000000,
                     exhaustive_programs=19456000, exhaustive_programs_all_arities=9216000, op_emit_recursive_same_signal=5000000, op_destroy_emitter_while_emitting=3000000, op_destroy_emitter_with_nested_emissions=500000,
                     op_destroy_listener_with_pending_slots=2500000, op_disconnect_behind_dead_record_of_same_slot=1800000, op_destroy_listener_behind_other_record_of_same_slot=1800000,
                     dcd_sequences_signal_emitting=800000, pending_slot_dropped_before_its_turn=5000000, passed_over_connected_during_emission=9000000, max_emission_depth=4,
-                    **{'set:action_at_depth': 90})},
+                    **{'set:action_at_depth': 90},
+                    **_arity_floors(emit=2800000, connect=3200000, disconnect=1300000, invoked=3600000, conn_emitting=560000, disc_emitting=520000, passed_over=560000, dropped=360000, ended=240000, recursive=320000))},
 )
